@@ -467,6 +467,63 @@ def run_same_basename(ctx):
     return n
 
 
+def run_path_spellings(ctx):
+    """the same rules, spec and data files addressed in different ways - by name, as `.` from inside the directory, `./`, through `..`,
+    with a trailing slash, by absolute path, file by file, and in directories / files whose names start with a dot: the exit code of
+    `test` (7 unmet expectation / 0 all met / non-zero broken spec) and of `validate` (19 / 0) is the one the outcome calls for in
+    every spelling, plain and structured"""
+    rules = 'rule port_is_443 {\n    port == 443\n}\n'
+    spec = lambda port, want: json.dumps([{'name': 'c', 'input': {'port': port}, 'expectations': {'rules': {'port_is_443': want}}}])
+    scen = {'unmet': (spec(80, 'PASS'), 7), 'met': (spec(80, 'FAIL'), 0), 'broken-spec': ('- input: {a: [\n', None)}
+    jobs, meta = [], []
+    for lab, (body, want) in scen.items():
+        d = os.path.join(ctx.wd, 'spell_t_' + lab)
+        e2e.write_files(d, {'pol/check.guard': rules, 'specs/check_tests.yaml': body, '.specs/check_tests.yaml': body, 'hid/.check_tests.yaml': body})
+        sp = os.path.join(d, 'specs')
+        for how, cwd, args in (
+                ('named', d, ['-r', 'pol/check.guard', '-t', 'specs']),
+                ('dot', sp, ['-r', '../pol/check.guard', '-t', '.']),
+                ('dot-slash', sp, ['-r', '../pol/check.guard', '-t', './']),
+                ('parent', sp, ['-r', '../pol/check.guard', '-t', '../specs']),
+                ('trailing-slash', d, ['-r', 'pol/check.guard', '-t', 'specs/']),
+                ('absolute', d, ['-r', os.path.join(d, 'pol/check.guard'), '-t', sp]),
+                ('file', d, ['-r', 'pol/check.guard', '-t', 'specs/check_tests.yaml']),
+                ('dot-named-dir', d, ['-r', 'pol/check.guard', '-t', '.specs']),
+                ('dot-named-file', d, ['-r', 'pol/check.guard', '-t', 'hid/.check_tests.yaml']),
+                ('dir-with-dot-named-file', d, ['-r', 'pol/check.guard', '-t', 'hid'])):
+            for mlab, flags in (('plain', []), ('json', ['-o', 'json']), ('junit', ['-o', 'junit'])):
+                jobs.append({'args': ['test'] + args + flags, 'cwd': cwd}); meta.append(('test', lab, how, mlab, want))
+    docs = {'non-compliant': ('{"port": 80}', 19), 'compliant': ('{"port": 443}', 0)}
+    for lab, (doc, want) in docs.items():
+        d = os.path.join(ctx.wd, 'spell_v_' + lab)
+        e2e.write_files(d, {'pol/check.guard': rules, 'data/doc.json': doc, '.pol/check.guard': rules, '.data/doc.json': doc, 'hid/.doc.json': doc, 'hidr/.check.guard': rules})
+        for how, cwd, args in (
+                ('named', d, ['-r', 'pol', '-d', 'data']),
+                ('data-dot', os.path.join(d, 'data'), ['-r', '../pol', '-d', '.']),
+                ('rules-dot', os.path.join(d, 'pol'), ['-r', '.', '-d', '../data']),
+                ('dot-slash', d, ['-r', './pol/', '-d', './data/']),
+                ('absolute', d, ['-r', os.path.join(d, 'pol'), '-d', os.path.join(d, 'data')]),
+                ('files', d, ['-r', 'pol/check.guard', '-d', 'data/doc.json']),
+                ('dot-named-dirs', d, ['-r', '.pol', '-d', '.data']),
+                ('dot-named-files', d, ['-r', 'hidr/.check.guard', '-d', 'hid/.doc.json']),
+                ('dirs-with-dot-named-files', d, ['-r', 'hidr', '-d', 'hid'])):
+            for mlab, flags in (('plain', []), ('s-json', ['--structured', '-o', 'json', '-S', 'none']), ('s-junit', ['--structured', '-o', 'junit', '-S', 'none'])):
+                jobs.append({'args': ['validate'] + args + flags, 'cwd': cwd}); meta.append(('validate', lab, how, mlab, want))
+    res = dict(zip(meta, e2e.run_many(jobs)))
+    n = 0
+    for (cmd, lab, how, mlab, want), (code, so, se) in res.items():
+        n += 1
+        named = res[(cmd, lab, 'named', mlab, want)][0]
+        bad = (code != want) if want is not None else (code == 0 or code != named)
+        if bad:
+            ctx.failing('%s (%s, %s) with the files addressed as "%s": exit %s, expected %s' % (cmd, lab, mlab, how, code, want if want is not None else 'the non-zero %s of the named spelling' % named),
+                        {'class': 'path-spelling', 'command': cmd, 'scenario': lab, 'spelling': how, 'mode': mlab, 'exit': code, 'exit_named': named,
+                         'stdout': so[:400].decode('utf-8', 'replace'), 'stderr': se[-300:].decode('utf-8', 'replace')}, found=True)
+    ctx.coverage['path_spelling_runs'] = n
+    ctx.coverage['evaluations'] += n
+    return n
+
+
 def run(ctx):
     ctx.build(cli=True)
     ok, problems = tables.regenerate()
@@ -478,6 +535,7 @@ def run(ctx):
     n1 = run_validate(ctx, 260 if thorough else 50, thorough)
     n2 = run_test_cmd(ctx, 200 if thorough else 40) + run_linked_documents(ctx)
     from .c16 import run_default_rule, run_multi_files
+    n2 += run_path_spellings(ctx)
     n2 += run_same_basename(ctx) + run_multi_files(ctx)     # several spec files / rules files in one `test` run: 7 iff an expectation is unmet, in every order
     n2 += run_default_rule(ctx)     # file-level clauses: the default rule's expectation decides the exit code in every rendering
     ctx.coverage['distinct_nontrivial'] = n1 + n2
